@@ -62,7 +62,7 @@ def is_y_buf(n):
 
 
 class IntegrateModel:
-    def __init__(self, repo):
+    def __init__(self, repo, allow_alias=False):
         self.repo = repo
         self.fn = fn = repo.get(DS, "OdeSystem.integrate")
         self.params = [a.arg for a in fn.args.args]
@@ -102,10 +102,24 @@ class IntegrateModel:
         self.loop = loops[0]
         # integrator call
         self.step_assign = None
+        self.integrator_alias = None
+        # locals bound (anywhere in integrate) to the integrator object: `take_step = self.integrator`, or `take_step, f = self.integrator, self.equ_rhs`
+        aliases = {}
+        for st in walk_no_nested(fn):
+            if isinstance(st, ast.Assign) and len(st.targets) == 1:
+                t, v = st.targets[0], st.value
+                pairs = list(zip(t.elts, v.elts)) if isinstance(t, (ast.Tuple, ast.List)) and isinstance(v, (ast.Tuple, ast.List)) and len(t.elts) == len(v.elts) else [(t, v)]
+                for tt, vv in pairs:
+                    if isinstance(tt, ast.Name) and is_self_attr(vv, "integrator"):
+                        aliases[tt.id] = st
         for st in walk_no_nested(self.loop):
             if isinstance(st, ast.Assign) and isinstance(st.value, ast.Call) and dotted(st.value.func) == "self.integrator":
                 self.step_assign = st
-        if self.step_assign is None:
+            elif isinstance(st, ast.Assign) and isinstance(st.value, ast.Call) and isinstance(st.value.func, ast.Name) and st.value.func.id in aliases:
+                self.step_assign = st
+                self.integrator_alias = (st.value.func.id, aliases[st.value.func.id])
+        if self.step_assign is None or (self.integrator_alias is not None and not allow_alias):
+            # a call through a local alias is judged by C02.8 only; every other model of the loop is anchored on the attribute call
             raise AnalysisError("anchor missing: `.. = self.integrator(...)` in the step loop")
         tg = self.step_assign.targets[0]
         try:
